@@ -196,6 +196,14 @@ impl ArpActor {
                 2 => f.hlen = rng.u8(),
                 3 => f.plen = rng.u8(),
                 4 => f.spa = [0, 0, 0, 0], // ARP probe
+                5 | 6 => {
+                    // relayed / proxied / forged request: the sender hardware address inside the
+                    // ARP payload is not the frame's Ethernet source
+                    let b = rng.bytes(6);
+                    f.sha = [b[0] & 0xfe, b[1], b[2], b[3], b[4], b[5]];
+                }
+                7 => f.sha = [0; 6],
+                8 => f.spa = f.tpa, // gratuitous
                 _ => {}
             }
             let dmac = if rng.chance(2, 3) && a.note == "own-mac" { BROADCAST } else { a.dmac };
